@@ -97,6 +97,17 @@ theorem step_invE {σ σ' : St} (a : Act) (hi : InvR σ) (he : InvE σ) (h : σ.
     rw [e]
     show (σ.files f).refs + List.count f (σ.ooo ++ σ.ord) = _
     omega
+  | loaderRef =>
+    obtain ⟨_, rfl⟩ := loaderRef_spec h
+    intro f
+    have := he f
+    simp only [St.fholders, List.map_append, List.sum_append, List.map_cons, List.map_nil,
+      List.sum_cons, List.sum_nil] at this ⊢
+    rw [refFiles_apply]
+    have e : σ.loaderView.fw f = List.count f (σ.ooo ++ σ.ord) := rfl
+    rw [e]
+    show (σ.files f).refs + List.count f (σ.ooo ++ σ.ord) = _
+    omega
   | openCursors i =>
     obtain ⟨v, hv, _, rfl⟩ := openCursors_spec h
     intro f
